@@ -55,7 +55,7 @@ pub fn run(ctx: &Ctx) -> Outcome {
         let iv_len = if *fam == "ige" { 2 * bs } else { bs };
         for key in keys(seed, cfg.key_len).iter().take(1) {
             for (ivn, iv) in iv_variants(seed, iv_len).into_iter().skip(tier.pick(2, 0)) {
-                for (dn, data) in data_variants(seed, 0xC12, lmax) {
+                for (dn, data) in data_variants(seed, 0xC12, lmax).into_iter().skip(light(cfg, tier)) {
                     for &l in &lens {
                         let m = &data[..l];
                         let (want, _) = family_ref(cfg, fam, *dir, key, &iv, m);
